@@ -125,7 +125,9 @@ def coq_build(prop=None):
                 fl2 = os.path.join(COQ, extra, "FILES")
                 names += [l.strip() for l in open(fl2) if l.strip()] if os.path.exists(fl2) else []
             targets = " ".join(n[:-2] + ".vo" for n in names)
-        rc, out = sh("timeout 3000 make -j16 %s 2>&1" % targets, cwd=COQ, timeout=3100)
+        # -k: when a proof file breaks, everything that does not depend on it (the Check modules) is still built, so
+        # that the oracle can search the cases for a concrete failing input
+        rc, out = sh("timeout 3000 make -k -j16 %s 2>&1" % targets, cwd=COQ, timeout=3100)
         return rc == 0, out
 
 
@@ -412,11 +414,12 @@ def run_check(prop, tier, seed, only=None):
             ph = json.load(open(os.path.join(pdir, "cases.json")))
         except Exception:
             ph = []
-        if ok:
-            pf, pe, pn = eval_cases(pdir)
-            failing.extend([(i + offset, codes) for i, codes in pf])
-            errors.extend(pe)
-            nshards += pn
+        # with a broken build the shards are still evaluated where their Check module was built: this is the search for
+        # a concrete failing input (a shard that cannot be compiled then is not a separate complaint)
+        pf, pe, pn = eval_cases(pdir)
+        failing.extend([(i + offset, codes) for i, codes in pf])
+        errors.extend(pe)
+        nshards += pn
         all_humans.extend(ph)
         offset += len(ph)
     if harness_ok and ok:
